@@ -91,7 +91,7 @@ RO_IP, RW_IP, PEER_IP = "10.0.0.1", "10.0.0.3", "10.0.0.2"
 
 def plan(tier, seed):
     n = 16
-    per = {"quick": 700, "thorough": 110000}[tier]
+    per = {"quick": 700, "thorough": 60000}[tier]
     return [{"name": "c19-%d" % i, "seed": seed * 1000 + i, "n": per, "index": i, "of": n, "tier": tier} for i in range(n)]
 
 
@@ -270,7 +270,6 @@ class World:
         self.shard = shard
         self.loop = loop
         self.tier = shard.get("tier", "quick")
-        self.tokens = {}
         self.ntoken = 0
         self.pending = {}
         self.pending_mid = {}
@@ -281,6 +280,7 @@ class World:
     # -- scratch ------------------------------------------------------------
     def make_scratch(self):
         base = "/dev/shm" if os.path.isdir("/dev/shm") and os.access("/dev/shm", os.W_OK) else None
+        remove_stale_scratch(base or tempfile.gettempdir())
         self.scratch = os.path.realpath(tempfile.mkdtemp(prefix="c19-", dir=base))
         self.root = os.path.join(self.scratch, "root")
         self.outside = os.path.join(self.scratch, "outside")
@@ -560,10 +560,34 @@ class World:
         rep.seen("responses", "%s %s" % (METHOD_NAMES.get(method, method), code))
         if write and root_changed and not lo:
             rep.count("legit_modifications")
-        sig = (kind, write, method, tuple(self.comp_class(p) for p in path[:10]), tuple(sorted({n for n, _ in opts})), code, tuple(sorted({(a["kind"], a["inside"]) for a in acc})))
+        sig = (kind, write, method, tuple(self.comp_class(p) for p in path[:10]), tuple(sorted({n for n, _ in opts})), code, tuple(sorted({(a["kind"], str(a["inside"])) for a in acc})))
         rep.case(sig, nontrivial=bool(path))
         if self.requests % 997 == 1:
             rep.sample({"request": req, "response": answer, "accesses": [(a["op"], a["resolved"] if a["resolved"] is None else a["resolved"][-60:], a["inside"]) for a in acc][:6]})
+
+
+def remove_stale_scratch(base, older_than=3 * 3600):
+    """A worker killed by the runner's wall-clock watchdog cannot run its `finally`; scratch areas of this
+    check that are older than any worker can be (timeout 1 h) are removed by the next run."""
+    now = vloop_real_time()
+    try:
+        names = os.listdir(base)
+    except OSError:
+        return
+    for n in names:
+        if n.startswith("c19-"):
+            p = os.path.join(base, n)
+            try:
+                if os.path.isdir(p) and not os.path.islink(p) and now - os.lstat(p).st_mtime > older_than:
+                    shutil.rmtree(p, ignore_errors=True)
+            except OSError:
+                pass
+
+
+def vloop_real_time():
+    from harness import vloop
+
+    return vloop._real_time()
 
 
 class _NullLog(list):
@@ -1041,8 +1065,16 @@ def run_shard(shard, rep, only=None):
                 if only is not None:
                     await run_case(w, only)
                     return
+                budget = 0.85 * float(os.environ.get("VERIF_WORKER_WALL", "0") or 0)
+                t0 = vloop_real_time()
+                ncases = 0
                 for case in shard_cases(w, shard):
                     await run_case(w, case)
+                    ncases += 1
+                    if budget and ncases % 256 == 0 and vloop_real_time() - t0 > budget:
+                        # never a verdict: the machine was too slow for the planned workload
+                        rep.inconc("shard %s stopped after %d cases: wall-clock budget of %.0f s used up (violations found so far are reported)" % (shard.get("name"), ncases, budget))
+                        break
             finally:
                 fsguard.disable()
                 await w.stop()
